@@ -1,5 +1,6 @@
 import ILV.Drv.Common
 import ILV.Model.Value
+import ILV.Model.Consolidate
 namespace ILV.Drv.C31
 open ILV
 
@@ -59,6 +60,27 @@ def triple : Handler := fun args impl =>
     { model := m, spec := tripleSpec [a, b, c] impl, nt := leO (Tuple.cmp a b) && leO (Tuple.cmp b c) }
   | _ => badReq
 
-def handlers : List (String × Handler) := [("c31.pair", pair), ("c31.triple", triple)]
+/-- `c31.cons | upd ; upd ; …` (consolidate_to_current) and `c31.cons2 | …` (consolidate). -/
+def consWith (f : List Upd → List Upd) (okf : List Upd → List Upd → Bool) : Handler := fun args impl =>
+  let items := (joinWith " " args).splitOn " ; "
+  let items := match items with
+    | first :: rest => (if first.startsWith "| " then (first.drop 2).toString else first) :: rest
+    | [] => []
+  let items := items.filter (fun s => s != "" && s != "|")
+  match optMapM Upd.ofWire items with
+  | some l =>
+    let out := f l
+    let w := fun (o : List Upd) => if o.isEmpty then "{}" else joinWith ";" (o.map Upd.toWire)
+    let implL := if impl == "{}" then some [] else optMapM Upd.ofWire (impl.splitOn ";")
+    let spec := match implL with
+      | some o => if okf l o then specOk
+                  else specFail (cls (l.map (·.data))) "net-multiplicity-or-duplicate"
+      | none => specFail "unclassified" ("unparsable-impl-output " ++ impl)
+    { model := w out, spec := spec, nt := l.length > out.length }
+  | none => badReq
+
+def handlers : List (String × Handler) :=
+  [("c31.pair", pair), ("c31.triple", triple),
+   ("c31.cons", consWith consolidateToCurrent consolidatedOk), ("c31.cons2", consWith consolidate consolidatedOkDT)]
 
 end ILV.Drv.C31
